@@ -211,43 +211,10 @@ fn find_sig(d: &[u8], sig: &[u8], from: usize) -> Option<usize> {
     (from..d.len().saturating_sub(3)).find(|i| &d[*i..*i + 4] == sig)
 }
 
-/// refuse mutants on which the implementation would try to allocate gigabytes
+/// UNTR and FSMN contents are not modelled: refuse mutants that happen to contain these signatures.
+/// (Counts read from the file are only allocation hints since /repo 6dd65f2e4, so extreme count
+/// fields are fair game.)
 fn dangerous(d: &[u8]) -> bool {
-    if d.len() >= 12 && u32::from_be_bytes(d[8..12].try_into().unwrap()) >= 1 << 16 {
-        return true;
-    }
-    let mut from = 0;
-    while let Some(i) = find_sig(d, b"IEOT", from) {
-        from = i + 1;
-        if let Some(sz) = d.get(i + 4..i + 8) {
-            let sz = u32::from_be_bytes(sz.try_into().unwrap()) as usize;
-            let end = (i + 8 + sz).min(d.len());
-            let mut q = i + 12;
-            while q + 8 <= end {
-                if u32::from_be_bytes(d[q + 4..q + 8].try_into().unwrap()) >= 1 << 16 {
-                    return true;
-                }
-                q += 8;
-            }
-        }
-    }
-    let mut from = 0;
-    while let Some(i) = find_sig(d, b"TREE", from) {
-        from = i + 1;
-        // a run of 6+ digits anywhere in the next bytes could be a subtree count
-        let end = (i + 4096).min(d.len());
-        let mut run = 0;
-        for b in &d[i..end] {
-            if b.is_ascii_digit() {
-                run += 1;
-                if run >= 6 {
-                    return true;
-                }
-            } else {
-                run = 0;
-            }
-        }
-    }
     for s in [&b"UNTR"[..], b"FSMN"] {
         if find_sig(d, s, 0).is_some() {
             return true;
@@ -311,7 +278,7 @@ fn mutate(rng: &mut Rng, l: &Layout) -> Vec<u8> {
             7 => {
                 // entry count +-
                 let n = u32::from_be_bytes(d[8..12].try_into().unwrap());
-                let n2 = if rng.chance(1, 2) { n.wrapping_add(1) } else { n.saturating_sub(1) };
+                let n2 = match rng.below(4) { 0 => n.wrapping_add(1), 1 => n.saturating_sub(1), 2 => 0xffff_ffff, _ => n | 0x0100_0000 };
                 d[8..12].copy_from_slice(&n2.to_be_bytes());
             }
             8 => {
@@ -413,6 +380,55 @@ fn gen(rng: &mut Rng, n: usize) -> Vec<Case> {
             b.path = b"b".to_vec();
             let l = write_index(version, &[a[0].clone(), b], &[1, 1], true, &[], true);
             out.push(vec![tag("dec"), num(1 + len % 3), l.bytes]);
+        }
+    }
+    // formerly panicking inputs (fixed in /repo by the C06 commits): trailing bytes after the TREE root,
+    // offset-table rows outside the entries, an 11-byte varint, count fields of 2^32-1
+    {
+        let es = {
+            let mut v = gen_entries(rng, 4, 6, false);
+            while v.len() < 3 {
+                v = gen_entries(rng, 4, 6, false);
+            }
+            v
+        };
+        let blocks = vec![1, es.len() - 1];
+        let mut tp = Vec::new();
+        tree_payload(&gen_tree(rng, 0, vec![]), &mut tp);
+        let mut tp_extra = tp.clone();
+        tp_extra.push(b'x');
+        for version in [2u32, 4] {
+            let l = write_index(version, &es, &blocks, true, &[(*b"TREE", tp_extra.clone())], true);
+            out.push(vec![tag("dec"), num(1), l.bytes.clone()]);
+            out.push(vec![tag("dec"), num(3), l.bytes.clone()]);
+            // IEOT rows: the extension is the first one, rows start 12 bytes into it
+            let ie = l.ext_start + 12;
+            for (row, off) in [(0usize, 0u32), (0, 11), (1, 0xffff_fff0), (1, l.ext_start as u32 + 1), (1, l.ext_start as u32)] {
+                let mut d = l.bytes.clone();
+                d[ie + 8 * row..ie + 8 * row + 4].copy_from_slice(&off.to_be_bytes());
+                // keep the EOIE hash valid: it covers signatures and sizes only
+                out.push(vec![tag("dec"), num(3), d.clone()]);
+                out.push(vec![tag("dec"), num(1), d]);
+            }
+            let mut d = l.bytes.clone();
+            d[ie + 4..ie + 8].copy_from_slice(&0xffff_ffffu32.to_be_bytes());
+            d[ie + 12..ie + 16].copy_from_slice(&0xffff_ffffu32.to_be_bytes());
+            out.push(vec![tag("dec"), num(2), d.clone()]);
+            out.push(vec![tag("dec"), num(4), d]);
+            let mut d = l.bytes.clone();
+            d[8..12].copy_from_slice(&0xffff_ffffu32.to_be_bytes());
+            out.push(vec![tag("dec"), num(1), d.clone()]);
+            out.push(vec![tag("dec"), num(3), d]);
+            if version == 4 {
+                for extra in [8usize, 9, 10, 11] {
+                    let mut d = l.bytes.clone();
+                    let at = l.entry_starts[1] + 62;
+                    for _ in 0..extra {
+                        d.insert(at, 0x80);
+                    }
+                    out.push(vec![tag("dec"), num(1), d]);
+                }
+            }
         }
     }
     // real git scenarios (prop only), spread over the stream so that parallel shards share them
